@@ -778,4 +778,199 @@ theorem removeAll_single (pre op body post : Str) (hop : IsIEOpener op)
   have := removeAux_id ('<' :: op') (body ++ arrow) hop post hpost
   simpa using this
 
+/-! ### exactly one match, in general -/
+
+/-- a string of the shape of a match: opener, body on one line, `-->` -/
+def MatchShaped (m : Str) : Prop := ∃ op body, IsIEOpener op ∧ '\n' ∉ body ∧ m = op ++ body ++ arrow
+
+theorem matchShaped_of_match (z m : Str) (h : ieMatchAt z = some m) : MatchShaped m := by
+  obtain ⟨op, body, _, hop, hb, hm, _, _⟩ := (ieMatchAt_iff z m).mp h
+  exact ⟨op, body, hop, hb, hm⟩
+
+theorem hasArrow_append_right (y : Str) (h : hasArrow y = true) : ∀ x : Str, hasArrow (x ++ y) = true := by
+  intro x
+  induction x with
+  | nil => exact h
+  | cons c cs ih => rw [List.cons_append, hasArrow, ih, Bool.or_true]
+
+/-- wherever a match-shaped string stands, the pattern matches (possibly more than that string) -/
+theorem ieMatchAt_isSome_of_shaped (m t : Str) (h : MatchShaped m) : (ieMatchAt (m ++ t)).isSome = true := by
+  obtain ⟨op, body, hop, hbody, rfl⟩ := h
+  unfold ieMatchAt
+  have e : op ++ body ++ arrow ++ t = op ++ (body ++ arrow ++ t) := by simp
+  rw [e, matchItems_opener op _ hop]
+  simp only
+  have hall : ∀ c ∈ body ++ arrow, (fun c : Char => decide (c ≠ '\n')) c = true := by
+    intro c hc
+    rcases List.mem_append.mp hc with h | h
+    · have : c ≠ '\n' := fun e => hbody (e ▸ h)
+      simp [this]
+    · simp only [arrow, List.mem_cons, List.not_mem_nil, or_false] at h
+      rcases h with rfl | rfl | rfl <;> decide
+  have e2 : body ++ arrow ++ t = (body ++ arrow) ++ t := rfl
+  rw [e2, takeWhile_append_all _ t (body ++ arrow) hall]
+  have hA : hasArrow (body ++ arrow ++ t.takeWhile (· ≠ '\n')) = true := by
+    rw [List.append_assoc]
+    apply hasArrow_append_right
+    simp [hasArrow, arrow, List.isPrefixOf]
+  cases ht : throughLastArrow (body ++ arrow ++ t.takeWhile (· ≠ '\n')) with
+  | none => rw [(throughLastArrow_none_iff _).mp ht] at hA; exact absurd hA (by simp)
+  | some ab => rfl
+
+theorem ieMatchAt_ne_nil (z m : Str) (h : ieMatchAt z = some m) : m ≠ [] := by
+  obtain ⟨op, body, hop, _, rfl⟩ := matchShaped_of_match z m h
+  obtain ⟨r, rfl⟩ := isIEOpener_head op hop
+  simp
+
+/-- no match starts at any position of the text -/
+def NoMatchIn (s : Str) : Prop := ∀ y x, s = y ++ x → ieMatchAt x = none
+
+/-- no match starts at a position inside `pre` when `tail` follows it -/
+def NoMatchBefore (pre tail : Str) : Prop := ∀ y x, pre = y ++ x → x ≠ [] → ieMatchAt (x ++ tail) = none
+
+theorem noMatchIn_of_findAll_nil : ∀ s : Str, ieFindAllAux 0 s = [] → NoMatchIn s := by
+  intro s
+  induction s with
+  | nil =>
+    intro _ y x h
+    have : x = [] := by
+      have := congrArg List.length h
+      simp at this
+      exact List.eq_nil_of_length_eq_zero (by omega)
+    rw [this]; rfl
+  | cons c cs ih =>
+    intro h y x hyx
+    rw [ieFindAllAux_zero_cons] at h
+    cases hm : ieMatchAt (c :: cs) with
+    | some m => rw [hm] at h; simp at h
+    | none =>
+      rw [hm] at h
+      cases y with
+      | nil => rw [List.nil_append] at hyx; rw [← hyx]; exact hm
+      | cons y0 y' =>
+        simp at hyx
+        exact ih h y' x hyx.2
+
+/-- `findall` found `m` first: the text splits around it, no match starts before it, the pattern gives exactly
+    `m` there, and the search goes on behind it -/
+theorem findAll_cons_split : ∀ (s m : Str) (ms : List Str), ieFindAllAux 0 s = m :: ms →
+    ∃ pre post, s = pre ++ m ++ post ∧ NoMatchBefore pre (m ++ post) ∧ ieMatchAt (m ++ post) = some m ∧
+      ms = ieFindAllAux 0 post := by
+  intro s
+  induction s with
+  | nil => intro m ms h; simp [ieFindAllAux] at h
+  | cons c cs ih =>
+    intro m ms h
+    rw [ieFindAllAux_zero_cons] at h
+    cases hm : ieMatchAt (c :: cs) with
+    | some m' =>
+      rw [hm] at h
+      simp at h
+      obtain ⟨rfl, hms⟩ := h
+      obtain ⟨_, _, rest, _, _, _, hz, _⟩ := (ieMatchAt_iff _ _).mp hm
+      have hne := ieMatchAt_ne_nil _ _ hm
+      obtain ⟨m0, m1, rfl⟩ := List.exists_cons_of_ne_nil hne
+      rw [List.cons_append] at hz
+      simp at hz
+      obtain ⟨rfl, rfl⟩ := hz
+      refine ⟨[], rest, by simp, ?_, by simpa using hm, ?_⟩
+      · intro y x hyx hx
+        have : x = [] := by
+          have := congrArg List.length hyx
+          simp at this
+          exact List.eq_nil_of_length_eq_zero (by omega)
+        exact absurd this hx
+      · rw [← hms]
+        have := ieFindAllAux_skip rest m1
+        simpa using this
+    | none =>
+      rw [hm] at h
+      obtain ⟨pre, post, hs, hpre, hat, hms⟩ := ih m ms h
+      refine ⟨c :: pre, post, by rw [hs]; simp, ?_, hat, hms⟩
+      intro y x hyx hx
+      cases y with
+      | nil =>
+        rw [List.nil_append] at hyx
+        rw [← hyx]
+        have : (c :: pre) ++ (m ++ post) = c :: cs := by rw [hs]; simp
+        rw [this]; exact hm
+      | cons y0 y' =>
+        simp at hyx
+        exact hpre y' x hyx.2 hx
+
+theorem removeAux_noMatch (m : Str) (hm : MatchShaped m) : ∀ z : Str, NoMatchIn z → removeAux m 0 z = z := by
+  intro z
+  induction z with
+  | nil => intro _; rfl
+  | cons c cs ih =>
+    intro h
+    rw [removeAux_zero_cons]
+    have hp : m.isPrefixOf (c :: cs) = false := by
+      cases hp : m.isPrefixOf (c :: cs) with
+      | false => rfl
+      | true =>
+        obtain ⟨t, ht⟩ := List.isPrefixOf_iff_prefix.mp hp
+        have h1 := ieMatchAt_isSome_of_shaped m t hm
+        rw [ht, h [] (c :: cs) rfl] at h1
+        exact absurd h1 (by simp)
+    rw [hp]
+    simp only [Bool.false_eq_true, if_false]
+    rw [ih (fun y x hyx => h (c :: y) x (by rw [hyx]; rfl))]
+
+theorem removeAux_before (m tail : Str) (hm : MatchShaped m) : ∀ pre : Str, NoMatchBefore pre tail →
+    removeAux m 0 (pre ++ tail) = pre ++ removeAux m 0 tail := by
+  intro pre
+  induction pre with
+  | nil => intro _; rfl
+  | cons c pre' ih =>
+    intro h
+    show removeAux m 0 (c :: (pre' ++ tail)) = _
+    rw [removeAux_zero_cons]
+    have hp : m.isPrefixOf (c :: (pre' ++ tail)) = false := by
+      cases hp : m.isPrefixOf (c :: (pre' ++ tail)) with
+      | false => rfl
+      | true =>
+        obtain ⟨t, ht⟩ := List.isPrefixOf_iff_prefix.mp hp
+        have h1 := ieMatchAt_isSome_of_shaped m t hm
+        have h2 := h [] (c :: pre') rfl (by simp)
+        rw [List.cons_append] at h2
+        rw [ht, h2] at h1
+        exact absurd h1 (by simp)
+    rw [hp]
+    simp only [Bool.false_eq_true, if_false]
+    rw [ih (fun y x hyx hx => h (c :: y) x (by rw [hyx]; rfl) hx)]
+    rfl
+
+/-- **`findall` finds exactly one match ⇒ that occurrence is cut out** (and nothing else happens before the
+    html-tag rule) -/
+theorem stripIE_of_single_match (s m : Str) (h : ieFindAll s = [m]) :
+    ∃ pre post, s = pre ++ m ++ post ∧ NoMatchBefore pre (m ++ post) ∧ ieMatchAt (m ++ post) = some m ∧
+      NoMatchIn post ∧ stripIE s = addHtmlIfMissing (pre ++ post) := by
+  obtain ⟨pre, post, hs, hpre, hat, hms⟩ := findAll_cons_split s m [] h
+  have hpost := noMatchIn_of_findAll_nil post hms.symm
+  refine ⟨pre, post, hs, hpre, hat, hpost, ?_⟩
+  have hshape := matchShaped_of_match _ _ hat
+  have hne := ieMatchAt_ne_nil _ _ hat
+  unfold stripIE
+  rw [h]
+  simp only [List.isEmpty_cons, Bool.false_eq_true, if_false, List.foldl_cons, List.foldl_nil]
+  congr 1
+  unfold removeAll
+  have : m.isEmpty = false := by cases m with
+    | nil => exact absurd rfl hne
+    | cons _ _ => rfl
+  rw [this]
+  simp only [Bool.false_eq_true, if_false]
+  rw [hs, List.append_assoc, removeAux_before m _ hshape pre hpre]
+  congr 1
+  obtain ⟨m0, m1, rfl⟩ := List.exists_cons_of_ne_nil hne
+  rw [List.cons_append, removeAux_zero_cons]
+  have hp : (m0 :: m1).isPrefixOf (m0 :: (m1 ++ post)) = true :=
+    List.isPrefixOf_iff_prefix.mpr ⟨post, by simp⟩
+  rw [hp]
+  simp only [if_true]
+  have := removeAux_skip (m0 :: m1) post m1
+  simp only [List.length_cons, Nat.add_sub_cancel] at this ⊢
+  rw [this, removeAux_noMatch _ hshape post hpost]
+
 end AHP
